@@ -47,11 +47,14 @@ func (m *mObj) clone() *mObj {
 }
 
 type hOHeap struct {
-	objs   []Object
-	models []*mObj
-	inner  List // a live list stored by reference
-	innerM []mval
-	deep   []bool // compare container values of this object deeply (Merge results) instead of by identity
+	objs    []Object
+	models  []*mObj
+	inner   List // a live list stored by reference
+	innerM  []mval
+	inner2  List // a second live list whose content the solver may make equal to inner's (distinct identity, possibly Equals)
+	inner2M []mval
+	innerO  Object // a live (empty) object stored by reference
+	deep    []bool // compare container values of this object deeply (Merge results) instead of by identity
 }
 
 func (h *hOHeap) add(o Object, m *mObj, deep bool) int {
@@ -87,6 +90,8 @@ func (h *hOHeap) check(what string) {
 		verifAssert(ok, what)
 	}
 	verifAssert(hSameSlots(mval{elem: h.innerM}, hSnapList(h.inner, false)), "object operations never change a list stored by reference")
+	verifAssert(hSameSlots(mval{elem: h.inner2M}, hSnapList(h.inner2, false)), "object operations never change a list stored by reference")
+	verifAssert(h.innerO.Count() == 0, "object operations never change an object stored by reference")
 }
 
 // a key: empty or one arbitrary byte ('.', '#', '"', non-ASCII all included)
@@ -102,15 +107,24 @@ func hKey() string {
 	return hBytesStr(1)
 }
 
-func (h *hOHeap) value() (any, mval) {
-	switch nondetIntRange(0, 2) {
+// value: an operation argument (full domain); preValue: a pre-state field (int, nil or the first list —
+// the pre-state only has to offer one container to be overwritten, the arguments bring the others).
+func (h *hOHeap) preValue() (any, mval) { return h.valueOf(nondetIntRange(0, 2)) }
+func (h *hOHeap) value() (any, mval)    { return h.valueOf(nondetIntRange(0, 4)) }
+
+func (h *hOHeap) valueOf(c int) (any, mval) {
+	switch c {
 	case 0:
 		v := nondetInt()
 		return v, mval{kind: TypeInt, i: v}
 	case 1:
 		return nil, mval{kind: TypeNil}
-	default:
+	case 2:
 		return h.inner, mval{kind: TypeList, ref: h.inner}
+	case 3:
+		return h.inner2, mval{kind: TypeList, ref: h.inner2}
+	default:
+		return h.innerO, mval{kind: TypeObject, ref: h.innerO}
 	}
 }
 
@@ -121,6 +135,10 @@ func hMkOHeap(maxN int) *hOHeap {
 	iv := nondetInt()
 	h.inner = NewList(iv)
 	h.innerM = []mval{{kind: TypeInt, i: iv}}
+	iv2 := nondetInt()
+	h.inner2 = NewList(iv2)
+	h.inner2M = []mval{{kind: TypeInt, i: iv2}}
+	h.innerO = NewObject()
 	n := nondetIntRange(0, maxN)
 	o := NewObject()
 	m := &mObj{}
@@ -129,7 +147,7 @@ func hMkOHeap(maxN int) *hOHeap {
 		for _, p := range m.keys {
 			verifAssume(k != p)
 		}
-		v, mv := h.value()
+		v, mv := h.preValue()
 		o.Set(k, v)
 		m.keys = append(m.keys, k)
 		m.vals = append(m.vals, mv)
@@ -140,7 +158,7 @@ func hMkOHeap(maxN int) *hOHeap {
 	pm := &mObj{}
 	if nondetIntRange(0, 1) == 1 {
 		k := hKey()
-		v, mv := h.value()
+		v, mv := h.preValue()
 		p.Set(k, v)
 		pm.set(k, mv)
 	}
